@@ -304,3 +304,33 @@ BUILDERS = {
 
 def build_root(kind, spec):
     return BUILDERS[kind](spec)
+
+
+# ---------------------------------------------------------------------------------------------------------------
+# by-value twins of low-level objects: rebuilt from nothing but the values an object carries (public members; for
+# Parent the constructor arguments it stores), through the public constructors.  Used by the C10 "equal by value ->
+# equal answers" oracle on DERIVED objects (results of operations), whose recipe-built twins share their provenance.
+
+
+def rebuild_by_value(o, _depth=0):
+    if o is None:
+        return None
+    if _depth > 12:
+        raise ValueError("hierarchy too deep to rebuild")
+    n = type(o).__name__
+    if n == "Sequence":
+        return Sequence(str(o), o.alphabet, id=o.id, type=o.sequence_type, parent=rebuild_by_value(o.parent, _depth + 1), validate_alphabet=False)
+    if n == "Parent":
+        return Parent(id=o.id, sequence_type=o.sequence_type, strand=o._strand, location=rebuild_by_value(o.location, _depth + 1),
+                      sequence=rebuild_by_value(o.sequence, _depth + 1), parent=rebuild_by_value(o.parent, _depth + 1))
+    if n == "SingleInterval":
+        return SingleInterval(o.start, o.end, o.strand, parent=rebuild_by_value(o.parent, _depth + 1))
+    if n == "CompoundInterval":
+        return CompoundInterval(list(o._starts), list(o._ends), o.strand, parent=rebuild_by_value(o.parent, _depth + 1))
+    if n == "_EmptyLocation":
+        return o
+    if n in ("TranscriptInterval", "CDSInterval", "FeatureInterval", "VariantInterval", "GeneInterval", "FeatureIntervalCollection",
+             "VariantIntervalCollection", "AnnotationCollection"):
+        # the documented value form of an interval is its dictionary; its coordinate system is the parent it lives on
+        return type(o).from_dict(o.to_dict(), rebuild_by_value(o._parent_or_seq_chunk_parent, _depth + 1))
+    raise TypeError(n)
